@@ -365,8 +365,56 @@ def observe(case):
             t = get_contingency_table(ms.a, ms.b, ms.lengths)
             assert int(t[0][0]) == 0
             return [int(t[0][1]), int(t[1][0])]
-        out['mslist'] = [_try(mslist)]
+        def table():       # the same data handed over as ONE TABLE held in memory
+            return Interval.from_entry_tuples([(n_, i, i + 1) for n_, i in ents])
+
+        def mslist_tab():
+            ms = MultiStream(sizes, a=table())
+            return [[int(v) for v in x.start.tolist()] for x in ms.a]
+
+        def zipfirst_tab():       # the table as FIRST stream of the zip: it is run to its end
+            ms = MultiStream(sizes, a=table(), b=ref())
+            res = []
+            for j, (x, y, l) in enumerate(zip(ms.a, ms.b, ms.lengths)):
+                assert y.start.tolist() == [L - 1 - j] and l == L
+                res.append([int(v) for v in x.start.tolist()])
+            return res
+
+        def mszip_tab():
+            ms = MultiStream(sizes, a=ref(), b=table())
+            res = []
+            for j, (x, y, l) in enumerate(zip(ms.a, ms.b, ms.lengths)):
+                assert x.start.tolist() == [L - 1 - j] and l == L
+                res.append([int(v) for v in y.start.tolist()])
+            return res
+
+        def ct_tab():
+            ms = MultiStream(sizes, a=ref(), b=table())
+            t = get_contingency_table(ms.a, ms.b, ms.lengths)
+            assert int(t[0][0]) == 0
+            return [int(t[0][1]), int(t[1][0])]
+
+        def agree(c, call, what):
+            # forbes / jaccard are the public callers of exactly this zip: they must raise iff (and as) `c` does
+            for f in (forbes, jaccard):
+                with np.errstate(all='ignore'):
+                    r = _try(lambda: float(call(f)))
+                if ('err' in r) != ('err' in c) or ('err' in r and r['err'] != c['err']):
+                    return dict(err=98, text='%s %s disagrees: %r vs %r' % (f.__name__, what, r, c))
+            return c
+        def zipfirst():           # the stream as FIRST stream of the zip
+            ms = MultiStream(sizes, a=iv_stream(), b=ref())
+            res = []
+            for j, (x, y, l) in enumerate(zip(ms.a, ms.b, ms.lengths)):
+                assert y.start.tolist() == [L - 1 - j] and l == L
+                res.append([int(v) for v in x.start.tolist()])
+            return res
+        out['mslist'] = [_try(mslist), agree(_try(zipfirst), lambda f: f(sizes, iv_stream(), ref()), 'with the stream as first argument')]
         out['mszip'] = [_try(mszip)]
+        zf = _try(zipfirst_tab)
+        out['mslist_tab'] = [_try(mslist_tab), agree(zf, lambda f: f(sizes, table(), ref()), 'with the table as first argument')]
+        out['mszip_tab'] = [_try(mszip_tab)]
+        out['ct_tab'] = [agree(_try(ct_tab), lambda f: f(sizes, ref(), table()), 'with the table as second argument')]
         c = _try(ct)
         # forbes / jaccard are the public callers of exactly this zip: they must raise iff the table does
         for f in (forbes, jaccard):
@@ -416,7 +464,7 @@ def to_coq(case, o):
     ljrow = lambda r: '(%s, %s, %s)' % (_nm(r[0]), cz(r[1]), '(@None ids)' if r[2] is None else '(Some %s)' % zl(r[2]))
     f = lambda key, conv, ty: clist([_res(x, conv) for x in _uniq(o.get(key, []))], 'res (%s)' % ty)
     return ('{| k_route := %s; k_genome := %s; k_keepall := %s; k_extra := %s; k_groups := %s; k_chunks := %s; '
-            'k_rows := %s; k_flat := %s; k_sum := %s; k_mslist := %s; k_mszip := %s; k_ct := %s; k_lj := %s |}' % (
+            'k_rows := %s; k_flat := %s; k_sum := %s; k_mslist := %s; k_mszip := %s; k_ct := %s; k_mslist_tab := %s; k_mszip_tab := %s; k_ct_tab := %s; k_lj := %s |}' % (
                 cz(case['route']), clist([_nm(n) for n in case['genome']], 'bname'), cbool(case['keepall']),
                 clist([_nm(n) for n in case['extra']], 'bname'),
                 clist(['(%s, %s)' % (_nm(n), zl(ids)) for n, ids in case['groups']], 'bname * ids'),
@@ -424,6 +472,8 @@ def to_coq(case, o):
                 f('rows', rows, 'list (bname * Z)'), f('flat', zl, 'list Z'), f('sum', cz, 'Z'),
                 f('mslist', zll, 'list ids'), f('mszip', zll, 'list ids'),
                 f('ct', lambda p: '(%s, %s)' % (cz(p[0]), cz(p[1])), 'Z * Z'),
+                f('mslist_tab', zll, 'list ids'), f('mszip_tab', zll, 'list ids'),
+                f('ct_tab', lambda p: '(%s, %s)' % (cz(p[0]), cz(p[1])), 'Z * Z'),
                 f('lj', lambda rs: clist([ljrow(r) for r in rs], 'bname * Z * option ids'), 'list (bname * Z * option ids)')))
 
 
@@ -467,6 +517,9 @@ def _failing(case, o):
     chk('mslist', lambda a: a)
     chk('mszip', lambda a: a)
     chk('ct', lambda a: [len(G), sum(len(ids) for ids in a)])
+    chk('mslist_tab', lambda a: a)
+    chk('mszip_tab', lambda a: a)
+    chk('ct_tab', lambda a: [len(G), sum(len(ids) for ids in a)])
     chk('lj', lambda a: [[c, j, (ids if c in dict(case['groups']) else None)] for j, (c, ids) in enumerate(zip(G, a))])
     return sorted(set(bad))
 
@@ -498,16 +551,21 @@ def finding(case, o):
     bad = _failing(case, o)
     if not bad or case['route'] != 1 or _expected(case) is not None:
         return None
-    if not set(bad) <= {('mszip', 'silent'), ('ct', 'silent')}:
+    if not set(bad) <= {('mszip', 'silent'), ('ct', 'silent'), ('mszip_tab', 'silent'), ('ct_tab', 'silent')}:
         return None
     n = len(case['genome'])
     ys, err = _synched_yields(case['genome'], case['groups'])
     if err is None or len(ys) < n:
         return None                     # the walk raises before the n-th yield: a silent completion is not this finding
     first = ys[:n]
-    if o.get('mslist') != [dict(err=err)]:
+    if o.get('mslist') != [dict(err=err), dict(err=err)]:
         return None
     if o.get('mszip') != [dict(done=first)] or o.get('ct') != [dict(done=[n, sum(len(t) for t in first)])]:
+        return None
+    # the same data as one table in memory takes the same path (one-chunk stream): same outcome, slot by slot
+    if o.get('mslist_tab') != [dict(err=err), dict(err=err)]:
+        return None
+    if o.get('mszip_tab') != [dict(done=first)] or o.get('ct_tab') != [dict(done=[n, sum(len(t) for t in first)])]:
         return None
     return 'C12-multistream-second-stream-unchecked'
 
